@@ -105,6 +105,10 @@ func runFlowCase(c *vf.Ctx, fc *flowCase) *flowResult {
 				}
 			}
 		}
+		if fc.Template == 15 {
+			// skeleton 14: two or three outer and middle elements, inner lengths 0..4
+			s.LenChoices, s.Len1Choices, s.MaxLen = []int{2, 3}, []int{2, 3}, 4
+		}
 		if fc.Template == 13 && len(s.LenChoices) == 0 {
 			s.LenChoices = []int{3} // skeleton 12: three run-time elements
 		}
